@@ -1020,7 +1020,9 @@ pub fn c20_e2e(bin: &str, seed: u64, sessions: u64, long_sessions: u64) -> E2eRe
                 if burst {
                     s.send_raw(&burst_bytes, 0);
                     s.pump_for(Duration::from_millis(300));
-                    // then 40 rounds of two *new* heights delivered higher-first in one write (their
+                }
+                if !long {
+                    // 40 rounds of two *new* heights delivered higher-first in one write (their
                     // handlers run concurrently in the real binary), each followed by a probe
                     let mut bad: Option<String> = None;
                     for r in 0..40u64 {
